@@ -137,6 +137,12 @@ class Names:
                 fs = {f["name"]: norm_ty(f["ty"]) for f in a["variants"][0]["fields"]}
                 if all(n in fs and (t is None or fs[n] == t) for n, t in fields.items()) and (not exact or set(fs) == set(fields)):
                     hs.append(a["path"])
+            if len(hs) > 1:
+                # several structs with these fields (a wire response and an internal value struct): the response type is the
+                # one that can be (de)serialised
+                wire = [h_ for h_ in hs if any(i_.get("self") == h_ and str(i_.get("trait", "")).endswith("Deserialize") for i_ in self.P.impls)]
+                if len(wire) == 1:
+                    hs = wire
             if exact and not hs:
                 # the same record with additional (informational) fields
                 for a in self._adts():
@@ -556,7 +562,18 @@ class Names:
     def pricing_candidates(self):
         sig = [U128, U128, U128, self.Decimal256]
         ret = "(%s, %s, %s)" % (U128, U128, U128)
-        return [f for f, ps, r in self._sig_index() if ps == sig and r == ret]
+        out = [f for f, ps, r in self._sig_index() if ps == sig and r == ret]
+        # the same triple as a struct with three named Uint128 fields (`SwapAmounts { return_amount, spread_amount,
+        # commission_amount }`): its fields are read by position, like the tuple's components
+        for f, ps, r in self._sig_index():
+            if ps == sig and r != ret:
+                a = self.P.adts.get(r)
+                if a is not None and a["kind"] == "struct" and len(a["variants"][0]["fields"]) == 3 and all(norm_ty(x["ty"]) == U128 for x in a["variants"][0]["fields"]):
+                    if not hasattr(self.P, "_triple_fields"):
+                        self.P._triple_fields = {}
+                    self.P._triple_fields[f.path] = [x["name"] for x in a["variants"][0]["fields"]]
+                    out.append(f)
+        return out
 
     def pricing(self, caller, what):
         """The (Uint128, Uint128, Uint128, Decimal256) -> (Uint128, Uint128, Uint128) function called (possibly through helpers) by `caller`."""
